@@ -63,6 +63,7 @@ type KnownFinding struct {
 	Msg      string `json:"msg_contains,omitempty"`
 	Where    string `json:"where_contains,omitempty"`
 	Input    string `json:"input_regex,omitempty"`
+	Harness  string `json:"harness_contains,omitempty"` // matched against "<harness>[args]" of the run that reported it
 	What     string `json:"what"`
 	Commit   string `json:"commit,omitempty"`
 }
@@ -233,8 +234,11 @@ func loadFindings(path string) []KnownFinding {
 	return doc.Findings
 }
 
-func (k *KnownFinding) matches(prop string, v *Violation, rendered string) bool {
+func (k *KnownFinding) matches(prop string, v *Violation, rendered string, run string) bool {
 	if k.Property != prop || k.Status != "open" {
+		return false
+	}
+	if k.Harness != "" && !strings.Contains(run, k.Harness) {
 		return false
 	}
 	if k.Kind != "" && k.Kind != v.Kind {
@@ -639,7 +643,7 @@ func cmdCheck(argv []string) int {
 		}
 		isKnown := false
 		for i := range findings {
-			if findings[i].matches(id, v, rendered) {
+			if findings[i].matches(id, v, rendered, fmt.Sprintf("%s%v", rs.Harness, rs.Args)) {
 				isKnown = true
 				line := fmt.Sprintf("KNOWN-FINDING: property=%s %s", id, findings[i].What)
 				if !contains(known, line) {
